@@ -1065,10 +1065,15 @@ class PyCdlib:
                                                 new_record.rock_ridge.bytes_to_skip,
                                                 True, new_record.file_identifier())
                     cdfp.seek(orig_pos)
-                    block = self.pvd.track_rr_ce_entry(ce_record.bl_cont_area,
-                                                       ce_record.offset_cont_area,
-                                                       ce_record.len_cont_area)
-                    new_record.rock_ridge.update_ce_block(block)
+                    if not (dir_record.is_root and new_record.is_dot()):
+                        # The continuation area of the root 'dot' record holds
+                        # the ER entry, which always gets a sector of its own
+                        # when extents are assigned; it is not a block that
+                        # other records can share.
+                        block = self.pvd.track_rr_ce_entry(ce_record.bl_cont_area,
+                                                           ce_record.offset_cont_area,
+                                                           ce_record.len_cont_area)
+                        new_record.rock_ridge.update_ce_block(block)
 
                 if new_record.rock_ridge is not None:
                     rr = new_record.rock_ridge.rr_version
